@@ -7,8 +7,11 @@ Threads are `0 … n-1`; a program is a string over `s` (send) `r` (receive) `c`
 `i` (isClosed); programs are separated by `|`. The k-th operation of thread t sends the
 value `100*t + k`.
 
-  enum  <cap> <progs> <max> all|edges   all maximal schedules (DFS); `edges`: stop a path when it
-                                        reaches a state seen before (covers every transition once)
+  enum  <cap> <progs> <max> all|edges|probes
+                                        all maximal schedules (DFS); `edges`: stop a path when it
+                                        reaches a state seen before (covers every transition once);
+                                        `probes`: for every reachable state and every thread that is
+                                        blocked there, a path to the state followed by `p<t>=B`
   walk  <cap> <progs> <seed> <n>        n random maximal schedules
   run   <cap> <progs> <acts>            acts `r<t>` `a<t>` `h<t>.<r>` separated by `,`
 
@@ -92,18 +95,32 @@ def emit (acc : EAcc) (pathRev : List String) (tag : String) : EAcc :=
   if acc.out.size ≥ acc.max then { acc with over := true }
   else { acc with out := acc.out.push (",".intercalate ((tag :: pathRev).reverse)) }
 
-partial def dfs (n : Nat) (edges : Bool) (s : St) (pathRev : List String) (acc : EAcc) : EAcc :=
+/-- thread `t` has work left and none of its actions (alone or as a rendezvous partner) is enabled -/
+def blocked (n : Nat) (s : St) (t : Nat) : Bool :=
+  !(s.prog t).isEmpty && !actEnabled s (.run t) && !actEnabled s (.abort t) &&
+  (List.range n).all (fun r => !actEnabled s (.hand t r) && !actEnabled s (.hand r t))
+
+def probesAt (n : Nat) (s : St) (pathRev : List String) (acc : EAcc) : EAcc :=
+  (List.range n).foldl (fun acc t =>
+    if blocked n s t then
+      emit acc (s!"p{t}=B/{s.buf.length}{if s.flag then "x" else "o"}" :: pathRev) "$P"
+    else acc) acc
+
+/-- mode 0: every maximal schedule; 1: every transition (prune at states seen before);
+    2: for every reachable state and every blocked thread, a path to the state followed by a probe of that thread -/
+partial def dfs (n : Nat) (mode : Nat) (s : St) (pathRev : List String) (acc : EAcc) : EAcc :=
   if acc.over then acc else
+  let acc := if mode == 2 then probesAt n s pathRev acc else acc
   let en := enabled n s
-  if en.isEmpty then emit acc pathRev "$M" else
+  if en.isEmpty then (if mode == 2 then acc else emit acc pathRev "$M") else
   en.foldl (fun acc (a, s') =>
     if acc.over then acc else
     let p := showStep n s s' a :: pathRev
-    if edges then
+    if mode != 0 then
       let k := stateKey n s'
-      if acc.seen.contains k then emit acc p "$P"
-      else dfs n edges s' p { acc with seen := acc.seen.insert k }
-    else dfs n edges s' p acc) acc
+      if acc.seen.contains k then (if mode == 2 then acc else emit acc p "$P")
+      else dfs n mode s' p { acc with seen := acc.seen.insert k }
+    else dfs n mode s' p acc) acc
 
 def lcg (x : Nat) : Nat := (x * 6364136223846793005 + 1442695040888963407) % 18446744073709551616
 
@@ -125,12 +142,25 @@ def parseAct (s : String) : Option Act :=
     | _ => none
   | _ => none
 
-def runActs (n : Nat) (s : St) : List Act → List String → List String
-  | [], acc => (((if (enabled n s).isEmpty then "$M" else "$P") :: acc)).reverse
+/-- `p<t>` in a `run` request: probe of thread t (must be blocked) -/
+def parseProbe (s : String) : Option Nat :=
+  match s.toList with
+  | 'p' :: rest => (String.ofList rest).toNat?
+  | _ => none
+
+def runActs (n : Nat) (s : St) : List String → List String → Option (List String)
+  | [], acc => some (((if (enabled n s).isEmpty then "$M" else "$P") :: acc)).reverse
   | a :: as, acc =>
-    match step s a with
-    | some s' => runActs n s' as (showStep n s s' a :: acc)
-    | none => runActs n s as (s!"{showAct a}=x/{s.buf.length}{if s.flag then "x" else "o"}" :: acc)
+    let tail := s!"/{s.buf.length}{if s.flag then "x" else "o"}"
+    match parseProbe a with
+    | some t => runActs n s as (s!"p{t}={if blocked n s t then "B" else "x"}{tail}" :: acc)
+    | none =>
+      match parseAct a with
+      | none => none
+      | some a =>
+        match step s a with
+        | some s' => runActs n s' as (showStep n s s' a :: acc)
+        | none => runActs n s as (s!"{showAct a}=x{tail}" :: acc)
 
 def handle (line : String) : String :=
   match line.splitOn "\t" with
@@ -139,7 +169,7 @@ def handle (line : String) : String :=
     | some cap, some ps, some max =>
       let n := ps.length
       let s0 := init cap (progFn ps)
-      let acc := dfs n (mode == "edges") s0 [] { max := max, seen := ({} : Std.HashSet String).insert (stateKey n s0) }
+      let acc := dfs n (if mode == "edges" then 1 else if mode == "probes" then 2 else 0) s0 [] { max := max, seen := ({} : Std.HashSet String).insert (stateKey n s0) }
       s!"n={acc.out.size} complete={if acc.over then 0 else 1};" ++ ";".intercalate acc.out.toList
     | _, _, _ => "bad-request"
   | ["walk", cap, progs, seed, cnt] =>
@@ -153,11 +183,13 @@ def handle (line : String) : String :=
       s!"n={outs.length} complete=0;" ++ ";".intercalate outs.reverse
     | _, _, _, _ => "bad-request"
   | ["run", cap, progs, acts] =>
-    match cap.toNat?, parseProgs progs, (if acts.isEmpty then some [] else (acts.splitOn ",").mapM parseAct) with
-    | some cap, some ps, some acts =>
+    match cap.toNat?, parseProgs progs with
+    | some cap, some ps =>
       let n := ps.length
-      "n=1 complete=1;" ++ ",".intercalate (runActs n (init cap (progFn ps)) acts [])
-    | _, _, _ => "bad-request"
+      match runActs n (init cap (progFn ps)) (if acts.isEmpty then [] else acts.splitOn ",") [] with
+      | some out => "n=1 complete=1;" ++ ",".intercalate out
+      | none => "bad-request"
+    | _, _ => "bad-request"
   | _ => "bad-request"
 
 def main : IO Unit := Drivers.runDriver handle
